@@ -441,6 +441,14 @@ theorem lookup_update_ne (k k' : String) (v : Val) (h : k' ≠ k) : ∀ fs : Lis
     assignTo ev (.sel (.sel (.var a) g) f) v st = (match st.env a with
       | some r => getField g r >>= fun inner => setField f v inner >>= fun inner' => setField g inner' r >>= fun r' => pure (st.set a r')
       | none => .stuck ("unbound " ++ a)) := rfl
+@[gomini] theorem assignTo_sel4_var (ev : Expr → St → R (Val × St)) (a g3 g2 g f : String) (v : Val) (st : St) :
+    assignTo ev (.sel (.sel (.sel (.sel (.var a) g3) g2) g) f) v st = (match st.env a with
+      | some r => setPath [g3, g2, g, f] v r >>= fun r' => pure (st.set a r')
+      | none => .stuck ("unbound " ++ a)) := rfl
+@[gomini] theorem assignTo_sel3_var (ev : Expr → St → R (Val × St)) (a g2 g f : String) (v : Val) (st : St) :
+    assignTo ev (.sel (.sel (.sel (.var a) g2) g) f) v st = (match st.env a with
+      | some r => setPath [g2, g, f] v r >>= fun r' => pure (st.set a r')
+      | none => .stuck ("unbound " ++ a)) := rfl
 @[gomini] theorem assignTo_idx_var (ev : Expr → St → R (Val × St)) (a : String) (i : Expr) (v : Val) (st : St) :
     assignTo ev (.idx (.var a) i) v st = (ev i st >>= fun r =>
       match r.2.env a, r.1 with
